@@ -358,3 +358,75 @@ def fanout_fail_family(tier="quick"):
     d = chain(("P", Parallel([chain(("Q", Parallel([_branch("A", 1), _branch("B", 1)], Catch=[{"ErrorEquals": ["States.ALL"], "Next": "QZ", "ResultPath": "$.e"}])), ("QZ", Pass())), _branch("C", 1)])), Z)
     out.append(scenario("parfail-inner-caught", d, workers=_okworkers(d, {"f_A1": {"*": ERR()}}), family="parfail-nested-par-caught"))
     return out
+
+# ------------------------------------------------------------------------------------------------------
+def child_family(tier="quick"):
+    """Parent/child executions and task-token callbacks (C15)."""
+    out = []
+    SFN = "arn:aws:states:local::states:"
+    def launch(form, name="c1", **kw):
+        res = {"start": SFN + "startExecution", "sync": SFN + "startExecution.sync", "sync2": SFN + "startExecution.sync:2",
+               "sdk": "arn:aws:states:local::aws-sdk:sfn:startSyncExecution", "token": SFN + "startExecution.waitForTaskToken"}[form]
+        st = {"Type": "Task", "Resource": res, "Parameters": {"StateMachineArn": sm_arn("c"), "Input": {"from": "parent", "n": 1}, "Name": name}, "ResultPath": "$.child"}
+        st.update(kw)
+        return st
+    child_ok = chain(("CA", Task("fc")), ("CZ", Pass(Result="done", ResultPath="$.z")))
+    child_fail = chain(("CA", Task("fc")), ("CF", Fail("E.child", "child failed")))
+    child_wait = chain(("CW", Wait(10)), ("CZ", Pass()))
+    child_slow = chain(("CA", Task("fslow")), ("CZ", Pass()))
+    Z = ("Z", Pass())
+    def add(name, parent, child, ctype="STANDARD", ptype="STANDARD", workers=None, form=None, **kw):
+        w = {"fc": {"*": OK({"c": 1})}}
+        w.update(workers or {})
+        sc = multi(name, {"m": {"definition": parent, "type": ptype}, "c": {"definition": child, "type": ctype}},
+                   [{"machine": "m", "name": "p1", "input": {"k": 1}}], workers=w, family=name, child_form=form,
+                   child_arn=exec_arn("c", "c1"), parent_arn=exec_arn("m", "p1"), **kw)
+        out.append(sc)
+    add("child-async", chain(("L", launch("start")), Z), child_ok, form="start")
+    for form in ("sync", "sync2"):
+        add("child-%s-ok" % form, chain(("L", launch(form)), Z), child_ok, form=form)
+        add("child-%s-fails" % form, chain(("L", launch(form)), Z), child_fail, form=form)
+        add("child-%s-fails-caught" % form, chain(("L", launch(form, Catch=[{"ErrorEquals": ["States.TaskFailed"], "Next": "Z", "ResultPath": "$.err"}])), Z), child_fail, form=form)
+    add("child-sdk-express-ok", chain(("L", launch("sdk")), Z), child_ok, ctype="EXPRESS", form="sdk")
+    add("child-sdk-express-fails", chain(("L", launch("sdk")), Z), child_fail, ctype="EXPRESS", form="sdk")
+    add("child-sync-express-child", chain(("L", launch("sync")), Z), child_ok, ctype="EXPRESS", form="sync")
+    # invalid combinations fail the task
+    add("child-unknown-machine", chain(("L", dict(launch("sync"), Parameters={"StateMachineArn": sm_arn("ghost"), "Input": {}, "Name": "c1"})), Z), child_ok, form="invalid")
+    add("child-sync-from-express", chain(("L", launch("sync")), Z), child_ok, ptype="EXPRESS", form="invalid")
+    add("child-sdk-of-standard", chain(("L", launch("sdk")), Z), child_ok, form="invalid")
+    add("child-no-arn", chain(("L", dict(launch("sync"), Parameters={"Input": {}})), Z), child_ok, form="invalid")
+    # parent time-out while the child is blocked in a Wait / Task
+    add("child-sync-parent-timeout-child-wait", chain(("L", launch("sync", TimeoutSeconds=2)), Z), child_wait, form="sync-timeout")
+    add("child-sync-parent-timeout-child-task", chain(("L", launch("sync", TimeoutSeconds=2)), Z), child_slow, workers={"fslow": {"*": [["delay", ["ok", 1]]]}}, form="sync-timeout")
+    add("child-sync-parent-timeout-caught", chain(("L", launch("sync", TimeoutSeconds=2, Catch=[{"ErrorEquals": ["States.Timeout"], "Next": "Z", "ResultPath": "$.err"}])), Z), child_wait, form="sync-timeout")
+    # parent inside Parallel / Map
+    add("child-sync-in-parallel", chain(("P", Parallel([chain(("L", launch("sync"))), chain(("B1", Task("fb")))])), Z), child_ok, workers={"fb": {"*": OK("b")}}, form="sync-nested")
+    add("child-sync-in-parallel-sibling-fails", chain(("P", Parallel([chain(("L", launch("sync"))), chain(("B1", Task("fb")))])), Z), child_wait, workers={"fb": {"*": ERR()}}, form="sync-terminated")
+    add("child-sync-in-map", chain(("M", Map(chain(("L", dict(launch("sync"), Parameters={"StateMachineArn": sm_arn("c"), "Input.$": "$", "Name.$": "$.nm"}))), ItemsPath="$.items")), Z), child_ok, form="sync-map",
+        **{})
+    out[-1]["starts"][0]["input"] = {"items": [{"nm": "c1"}, {"nm": "c2"}]}
+    # task-token callbacks on an rpcmessage task
+    tok = {"Type": "Task", "Resource": "arn:aws:states:local::rpcmessage:invoke.waitForTaskToken", "TimeoutSeconds": 5,
+           "Parameters": {"FunctionName": fn_arn("ft"), "Payload": {"token.$": "$$.Task.Token", "x": 1}}, "ResultPath": "$.cb"}
+    def addtok(name, script, workers=None, state=None, **kw):
+        sc = multi(name, {"m": {"definition": chain(("T", state or tok), Z)}}, [{"machine": "m", "name": "p1", "input": {"k": 1}}],
+                   workers=workers or {"ft": {"*": NONE}}, family=name, parent_arn=exec_arn("m", "p1"), child_form="token", **kw)
+        sc["script"] = [dict(st, op="start") for st in sc["starts"]] + script
+        sc["starts"] = []
+        out.append(sc)
+    ok = {"op": "api", "action": "SendTaskSuccess", "params": {"output": "{\"cb\": 42}"}, "token_from": "ft", "needs_request": "ft", "tag": "valid"}
+    fail = {"op": "api", "action": "SendTaskFailure", "params": {"error": "E.cb", "cause": "callback says no"}, "token_from": "ft", "needs_request": "ft", "tag": "valid-failure"}
+    A42 = [["SUCCEEDED", {"cb": 42}]]
+    addtok("token-success", [ok], allowed=A42)
+    addtok("token-failure", [fail], allowed=[["FAILED", "E.cb"]])
+    addtok("token-duplicate", [ok, dict(ok, params={"output": "{\"cb\": 43}"}, tag="duplicate")], allowed=A42)
+    addtok("token-success-then-failure", [ok, dict(fail, tag="duplicate")], allowed=A42)
+    addtok("token-forged-then-valid", [dict(ok, mangle="forge", tag="forged"), ok], allowed=A42)
+    addtok("token-truncated-then-valid", [dict(ok, mangle="truncate", tag="truncated"), ok], allowed=A42)
+    addtok("token-notbase64-then-valid", [dict(ok, mangle="notbase64", tag="notbase64"), ok], allowed=A42)
+    addtok("token-never", [], allowed=[["FAILED", "States.Timeout"]])
+    addtok("token-late", [dict(ok, after_quiet=True, tag="late")], allowed=[["FAILED", "States.Timeout"]])
+    addtok("token-rpc-reply-before-callback", [ok], workers={"ft": {"*": [["delay", ["ok", {"ignored": True}]]]}}, allowed=A42)
+    addtok("token-rpc-error-reply", [ok], workers={"ft": {"*": [["delay", ["err", "E.rpc", "worker failed"]]]}}, allowed=A42 + [["FAILED", "E.rpc"]])
+    addtok("token-caught", [fail], state=dict(tok, Catch=[{"ErrorEquals": ["E.cb"], "Next": "Z", "ResultPath": "$.err"}]), allowed=[["SUCCEEDED", None]])
+    return out
